@@ -68,6 +68,7 @@ def run(rep: Report, tier: str) -> None:
 	rule_receiver_kinds(rep, idx)
 	rule_member_binding(rep, idx)
 	rule_actualize_order(rep, idx)
+	rule_dispatch_chains(rep, idx)
 
 
 def rule_a(rep: Report, idx: SourceIndex) -> None:
@@ -783,3 +784,59 @@ def rule_actualize_order(rep: Report, idx: SourceIndex) -> None:
 		r.ok('step-order', (m.relpath, tables[0].lineno), message='steps are iterated (while loop): order does not matter')
 	else:
 		r.check(keys[0] == 'nullable', 'step-order', (m.relpath, tables[0].lineno), f'actualize applies its steps once in the order {keys}: the optional is unwrapped after the steps that would unwrap what it contains, so for `x: DSI | None` (DSI: TypeAlias = dict[str, int]) the alias inside the optional stays an alias — `x["a"]` is typed DSI instead of int, `for k, v in x.items()` is unresolved, and a lambda passed for a `Handler | None` parameter gets the Callable itself as parameter type', str(keys))
+
+
+def rule_dispatch_chains(rep: Report, idx: SourceIndex) -> None:
+	"""The reflection layer dispatches on the KIND of a helper / node with chains `if x.is_a(A): ... elif x.is_a(B): ...` (or isinstance). `is_a` is an
+	isinstance test, so an arm for a class must come before the arm of any of its base classes — otherwise it is dead and the base-class arm answers
+	for it. For function helpers this decides what is passed as the receiver: `ClassMethod` derives from `Method`; with the `Method` arm first a
+	classmethod call hands the class instance instead of `type[Class]` to the template matcher, the class type variable binds to the whole receiver
+	class and `Box.of(1)` is typed `Box<Box<T>>`."""
+	r = rep.rule('C03/kind-dispatch-tests-subclasses-first', 'in every if/elif chain of is_a / isinstance tests on one subject in rogw/tranp/semantics, no arm tests a class after an arm that tests one of its base classes', floor=4)
+	n_ = 0
+	for rel in idx.all_py(('rogw/tranp/semantics',)):
+		m = idx.mod(rel)
+		for q, f in m.functions.items():
+			if '#' in q:
+				continue
+			seen_ifs: set[int] = set()
+			for n in walk_no_nested(f.node):
+				if not isinstance(n, ast.If) or id(n) in seen_ifs:
+					continue
+				chain = []
+				cur = n
+				while isinstance(cur, ast.If):
+					seen_ifs.add(id(cur))
+					chain.append(cur)
+					cur = cur.orelse[0] if len(cur.orelse) == 1 and isinstance(cur.orelse[0], ast.If) else None
+				# also a sequence of `if ...: return` statements is such a chain, but only elif chains are read here
+				tests = []
+				for arm in chain:
+					t = arm.test
+					subj = cls_e = None
+					if isinstance(t, ast.Call) and isinstance(t.func, ast.Attribute) and t.func.attr == 'is_a' and len(t.args) == 1:
+						subj, cls_e = unparse(t.func.value), t.args[0]
+					elif isinstance(t, ast.Call) and unparse(t.func) == 'isinstance' and len(t.args) == 2 and not isinstance(t.args[1], ast.Tuple):
+						subj, cls_e = unparse(t.args[0]), t.args[1]
+					if subj is None:
+						tests.append(None)
+						continue
+					c = idx.resolve_class(m, cls_e)
+					tests.append((subj, c, arm, unparse(cls_e)))
+				known = [t for t in tests if t is not None and t[1] is not None]
+				if len(known) < 2:
+					continue
+				n_ += 1
+				bad = None
+				for i, a in enumerate(tests):
+					if a is None or a[1] is None:
+						continue
+					for b in tests[i + 1:]:
+						if b is None or b[1] is None or b[0] != a[0] or b[1] is a[1]:
+							continue
+						if a[1] in idx.mro(b[1]):
+							bad = (a, b)
+				key = f'{rel}:{q}:{chain[0].lineno - f.node.lineno}'
+				r.check(bad is None, f'{q}:{known[0][0]}:{"/".join(t[3].split(".")[-1] for t in known)}', (rel, chain[0].lineno), (f'the arm `{bad[1][0]}.is_a({bad[1][3]})` comes after `{bad[0][0]}.is_a({bad[0][3]})`, and {bad[1][3].split(".")[-1]} derives from {bad[0][3].split(".")[-1]}: the later arm is dead, every {bad[1][3].split(".")[-1]} is answered by the base-class arm' + (' — for function helpers the classmethod arm is the one that passes the receiver as type[Class]; without it the class type variable binds to the receiver class itself and `Box.of(1)` is typed Box<Box<T>> (run time: Box of int)' if 'ClassMethod' in bad[1][3] else '')) if bad else '', unparse(bad[1][2].test) if bad else None)
+	if n_ == 0:
+		r.skip('chains', None, 'no is_a / isinstance dispatch chain with two resolvable classes found in rogw/tranp/semantics')
